@@ -53,6 +53,36 @@ def gen_case(rng, tier, index):
     return {"model": model, "edits": edits, "develop": rng.random() < 0.7,
             "jobs0": rng.choice([1, 2, 4]), "seed0": rng.getrandbits(32)}
 
+def directed_cases(tier):
+    """Edits that change nothing but the Variant-Id of a deterministic checkout (script text,
+    value of a variable only the checkout consumes) and their reverts, in develop mode where
+    the source directory is kept."""
+    import random
+    rng = random.Random(101)
+    out = []
+    want = 16 if tier == "thorough" else 4
+    tries = 0
+    while len(out) < want and tries < 300:
+        tries += 1
+        model = projgen.gen_valid_project(rng, features={"checkoutscript", "vars", "diamond"} | set(rng.sample(
+            ["tools", "classes", "depenv", "provideVars", "import"], rng.randint(0, 2))))
+        cands = [n for n in model["order"] if model["recipes"][n]["src"] == "script"]
+        if not cands:
+            continue
+        n = rng.choice(cands)
+        r = model["recipes"][n]
+        edits = [{"kind": "salt", "recipe": n, "step": "checkout", "value": "%x" % rng.getrandbits(24)}]
+        v = rng.choice(projgen.VARPOOL)
+        if v not in r["checkoutVars"]:
+            edits.append({"kind": "var_list", "recipe": n, "list": "checkoutVars", "var": v})
+        edits.append({"kind": "default_env", "var": v, "value": "dd%d" % rng.randrange(1000)})
+        edits.append({"kind": "revert", "to": 0})
+        out.append({"model": model, "develop": True, "jobs0": 1, "seed0": rng.getrandbits(32),
+                    "edits": [{"edit": e, "jobs": rng.choice([1, 2]), "sched_seed": rng.getrandbits(32), "repeat": i == 0}
+                              for i, e in enumerate(edits)],
+                    "directed": "checkout-only edits of a deterministic checkout"})
+    return out
+
 def run_case(case):
     top = common.scratch_dir("c01-%d" % os.getpid())
     stats = common.Counter()
